@@ -161,7 +161,7 @@ NATIVE_OPAQUE["bds05.airborne_position"] = _n_ap
 NATIVE_OPAQUE["bds06.surface_position"] = _n_sp
 
 
-@harness(("C03", "C05", "C14", "C17"),
+@harness(("C03", "C05", "C14"),
          inputs={"msg0": HexStr(28), "msg1": HexStr(28), "t0": RealRange(0, 4000000000), "t1": RealRange(0, 4000000000),
                  "has_ref": Choice(False, True), "lat_ref": RealRange(-90, 90), "lon_ref": RealRange(-180, 180)},
          functions=["pyModeS.decoder.adsb.position"], body_of=["pyModeS.decoder.adsb.position"], idealised=True,
